@@ -1,5 +1,5 @@
 -- REGENERATED from /repo by `vh extract` on every run. Do not edit.
 namespace Sqlc.Gen
 /-- source shapes the translator could not match; the obligation `untranslatable = []` is part of every check -/
-def untranslatable : List String := ["imports.go: modelImports has 6 uses/usesType/sliceScan calls, 4 in a recognised rule shape", "imports.go: queryImports has 7 uses/usesType/sliceScan calls, 5 in a recognised rule shape"]
+def untranslatable : List String := []
 end Sqlc.Gen
